@@ -1016,4 +1016,17 @@ example : readFrame [0x78] = .err .headerEOF 1 [] := by decide
 example : readFrame (writeFrame [0x7b, 0x7d]).dropLast = .err .bodyShort 22 [] := by decide
 example : readFrame ((writeFrame [0x7b, 0x7d]).take 21) = .err .bodyEOF 21 [] := by decide
 
+/-- The hypotheses of the theorems above are satisfiable. -/
+example : ∀ p ∈ [[0x7b, 0x7d], [0x5b, 0x31, 0x5d]], 0 < p.length ∧ p.length ≤ 2147483647 := by decide
+example : (List.replicate 2147483648 (0 : UInt8)).length = 2147483648 := List.length_replicate
+example : IsLine [0x58, 0x3a, 0x79, 0x0a] ∧ (classify [0x58, 0x3a, 0x79, 0x0a]).continues = true :=
+  ⟨⟨[0x58, 0x3a, 0x79], rfl, by decide⟩, by decide⟩
+example : IsLine [0x0d, 0x0a] ∧ (classify [0x0d, 0x0a]).continues = false :=
+  ⟨⟨[0x0d], rfl, by decide⟩, by decide⟩
+/-- `C38_header_rules` on `X:y⏎ Content-Length:7⏎ Content-Length:2⏎ ⏎`: done, length 2. -/
+example : readHeader 9 ([0x58, 0x3a, 0x79, 0x0a] ++
+      [0x43, 0x6f, 0x6e, 0x74, 0x65, 0x6e, 0x74, 0x2d, 0x4c, 0x65, 0x6e, 0x67, 0x74, 0x68, 0x3a, 0x37, 0x0a] ++
+      [0x43, 0x6f, 0x6e, 0x74, 0x65, 0x6e, 0x74, 0x2d, 0x4c, 0x65, 0x6e, 0x67, 0x74, 0x68, 0x3a, 0x32, 0x0a] ++
+      [0x0a] ++ [0x7b, 0x7d]) 0 0 = .done 39 2 [0x7b, 0x7d] := by decide
+
 end GopModel.Frame
